@@ -35,11 +35,6 @@ Fixpoint insert_everywhere (a : Z) (l : list Z) : list (list Z) :=
   end.
 Fixpoint perms (l : list Z) : list (list Z) :=
   match l with [] => [[]] | a :: r => flat_map (insert_everywhere a) (perms r) end.
-Fixpoint rows_product (rows : list (list Z)) (k : nat) : list answer :=
-  match k with
-  | O => [[]]
-  | S k' => let rest := rows_product rows k' in flat_map (fun r => map (app r) rest) rows
-  end.
 Definition answers_sudoku (pb : problem) : list answer :=
   let size := dim pb 0 * dim pb 0 in
   rows_product (perms (zrange 1 (Z.of_nat size))) size.
